@@ -20,6 +20,7 @@ type Ctx struct {
 	R    *report.Result
 
 	graphs map[ast.Node]*cfgx.Graph
+	flows  map[*load.FuncInfo]*fieldFlow
 }
 
 // Rule set registry: property id -> function.
